@@ -341,4 +341,14 @@ def _z3_version():
 
 
 if __name__ == "__main__":
-    sys.exit(main())
+    try:
+        rc = main()
+    except SystemExit:
+        raise
+    except BaseException:
+        # an internal failure of the driver is a harness error (3), never a verdict (0 / 1)
+        import traceback
+        traceback.print_exc()
+        print("HARNESS-ERROR driver crashed; nothing is claimed")
+        rc = 3
+    sys.exit(rc)
